@@ -227,10 +227,11 @@ Expect(k, v) ==
         uid |-> [alts |-> ua,
                  dev |-> [D \in ud |-> {ToUids(A, v) : A \in Alts(k, v, Ctx(D, TRUE))}]]]
 
-(* RFC 3501 7.? / 9: "The server should respond with a tagged BAD response to  *)
-(* a command that uses a message sequence number greater than the number of   *)
-(* messages in the selected mailbox.  This includes "*" if the selected       *)
-(* mailbox is empty."  (should: both BAD and evaluating are accepted.)        *)
+(* RFC 3501 section 9, note on seq-number: "The server should respond with a *)
+(* tagged BAD response to a command that uses a message sequence number       *)
+(* greater than the number of messages in the selected mailbox.  This         *)
+(* includes "*" if the selected mailbox is empty."  (should: both BAD and     *)
+(* evaluating the key are accepted.)                                          *)
 RECURSIVE SeqBeyond(_, _)
 SeqBeyond(k, n) ==
     CASE k.op = "SEQ" -> \E i \in 1..Len(k.set) : \E j \in 1..2 :
